@@ -23,8 +23,35 @@ Record obs := {
   o_touched2 : bool       (* existence or mtime changed during Golden::assert *)
 }.
 
+(* the rest of the directory of the golden file - every entry but the golden file itself, as
+   (relative name, bytes), directories with a trailing `/`, sorted by name - listed before
+   Golden::new, after it and after Golden::assert, and whether any name or modification time
+   changed during the one or the other *)
+Record dirobs := {
+  d_before : list (text * text);
+  d_new : list (text * text);
+  d_assert : list (text * text);
+  d_touched1 : bool;
+  d_touched2 : bool
+}.
+Definition DirObs a b c t1 t2 :=
+  {| d_before := a; d_new := b; d_assert := c; d_touched1 := t1; d_touched2 := t2 |}.
+
+Fixpoint dir_eqb (a b : list (text * text)) : bool :=
+  match a, b with
+  | [], [] => true
+  | (n1, c1) :: a', (n2, c2) :: b' => text_eqb n1 n2 && text_eqb c1 c2 && dir_eqb a' b'
+  | _, _ => false
+  end.
+
+(* "never creates or modifies any file" for every file that is not the golden file: whatever
+   UPDATE_GOLDEN holds, nothing appears, disappears, changes or is rewritten beside it *)
+Definition dir_untouched (d : dirobs) : bool :=
+  dir_eqb (d_new d) (d_before d) && dir_eqb (d_assert d) (d_before d) &&
+  negb (d_touched1 d) && negb (d_touched2 d).
+
 Inductive case :=
-| One (f : option text) (env_new env_assert : option text) (got : text) (o : obs).
+| One (f : option text) (env_new env_assert : option text) (got : text) (o : obs) (d : dirobs).
 
 Definition Obs a b c d e f := {| o_new := a; o_file1 := b; o_touched1 := c; o_assert := d; o_file2 := e; o_touched2 := f |}.
 
@@ -78,11 +105,15 @@ Definition obs_eqb (a b : obs) : bool :=
   (o_new a =? o_new b) && opt_text_eqb (o_file1 a) (o_file1 b) && Bool.eqb (o_touched1 a) (o_touched1 b) &&
   (o_assert a =? o_assert b) && opt_text_eqb (o_file2 a) (o_file2 b) && Bool.eqb (o_touched2 a) (o_touched2 b).
 
+(* the model on the whole directory (Model/Golden.v dirworld): what it leaves beside the file *)
+Definition model_dir (f : option text) (e1 e2 : option text) (got : text) (d : dirobs) : list (text * text) :=
+  others (fst (dir_session {| dw := {| file := f; env := e1 |}; others := d_before d |} e2 got)).
+
 Definition classify (c : case) : N :=
   match c with
-  | One f e1 e2 got o =>
-      if negb (spec_holds f e1 e2 got o) then 2
-      else if obs_eqb o (model_obs f e1 e2 got) then 0 else 1
+  | One f e1 e2 got o d =>
+      if negb (spec_holds f e1 e2 got o && dir_untouched d) then 2
+      else if obs_eqb o (model_obs f e1 e2 got) && dir_eqb (d_assert d) (model_dir f e1 e2 got d) then 0 else 1
   end.
 
 Definition verdicts (cs : list case) : list N := map classify cs.
